@@ -201,6 +201,7 @@ var dependentPool = []arch{
 	{name: "S", ns: "urn:s", negotiable: true, necessary: xmpp.Secure},
 	{name: "MS", ns: "urn:ms", negotiable: true, mandatory: true, necessary: xmpp.Secure},
 	{name: "W", ns: "urn:w", negotiable: true, prohibited: xmpp.Secure},
+	{name: "SA", ns: "urn:sa", negotiable: true, necessary: xmpp.Secure | xmpp.Authn}, // needs two bits: one of them is not enough
 }
 
 // withPool runs body with the archetype list replaced.
@@ -689,7 +690,7 @@ func init() {
 			return []drv.Part{
 				{Name: "initiator", Desc: fmt.Sprintf("<= %d features, <= %d advertisements", k, n), Body: initiatorBody(k, n, twice), CutDepth: 5, Budget: b},
 				{Name: "receiver", Desc: fmt.Sprintf("<= %d features, <= %d selections", k, n+1), Body: receiverBody(k, n+1), CutDepth: 5, Budget: b},
-				{Name: "initiator-dependent", Desc: fmt.Sprintf("<= 3 of 4 features whose eligibility depends on a bit another feature of the same list sets without a restart, <= %d advertisements", n-1), Body: withPool(dependentPool, initiatorBody(3, n-1, twice)), MaxDev: 2, CutDepth: 5, Budget: b},
+				{Name: "initiator-dependent", Desc: fmt.Sprintf("<= 3 of 5 features whose eligibility depends on a bit another feature of the same list sets without a restart, <= %d advertisements", n-1), Body: withPool(dependentPool, initiatorBody(3, n-1, twice)), MaxDev: 2, CutDepth: 5, Budget: b},
 				{Name: "receiver-dependent", Desc: fmt.Sprintf("the same configurations on the receiving side, <= %d selections", n+1), Body: withPool(dependentPool, receiverBody(3, n+1)), MaxDev: 2, CutDepth: 5, Budget: b},
 			}
 		},
